@@ -572,7 +572,22 @@ def _validate_zone_tree_structure(
         return "/".join([root["name"], o_zone_name])
 
     # Sort for deterministic naming (stability aids testing/debugging)
-    for stream in sorted(stream_iter, key=lambda s: (s.zone, s.name)):
+    sorted_streams = sorted(stream_iter, key=lambda s: (s.zone, s.name))
+
+    # Create every zone named by a label first, so that a generated unit-operation
+    # name can never coincide with a zone that a later label refers to
+    for stream in sorted_streams:
+        current = root
+        for z_name in _split_zone_name(stream.zone):
+            if z_name not in current["children"]:
+                current["children"][z_name] = {
+                    "name": z_name,
+                    "type": ZoneType.P.value,
+                    "children": {},
+                }
+            current = current["children"][z_name]
+
+    for stream in sorted_streams:
         original_zone = stream.zone
         z_path = _split_zone_name(original_zone)
         current = root
